@@ -265,7 +265,13 @@ func (m c05) attack(c *Ctx, s *SchemaSpec, schema *jsonapi.Schema, in []byte, cl
 		var req *jsonapi.Request
 		var err error
 		if pi := Guard(func() {
-			u, _ := url.Parse("/" + s.Types[0].Name)
+			// every path shape: collection, resource, related and relationship URLs
+			t0 := &s.Types[0]
+			paths := []string{"/" + t0.Name, "/" + t0.Name + "/id1"}
+			if len(t0.Rels) > 0 {
+				paths = append(paths, "/"+t0.Name+"/id1/"+t0.Rels[0].Name, "/"+t0.Name+"/id1/relationships/"+t0.Rels[0].Name)
+			}
+			u, _ := url.Parse(paths[(len(in)+len(method))%len(paths)])
 			hr, herr := http.NewRequest(method, u.String(), bytes.NewReader(in))
 			if herr != nil {
 				err = herr
@@ -416,7 +422,7 @@ func (m c05) Case(c *Ctx, r *RNG) {
 		mut("unknown-type", func(v *JV) bool {
 			for i, k := range v.Keys {
 				if k == "type" && v.Vals[i].Kind == 's' {
-					v.Vals[i] = &JV{Kind: 's', Str: r.Pick([]string{"nope", "", "Users", " "})}
+					v.Vals[i] = &JV{Kind: 's', Str: r.Pick([]string{"nope", "", "Users", " ", "zz-decoy", "zz-decoy"})}
 					return true
 				}
 			}
@@ -475,7 +481,7 @@ func (m c05) Directed(c *Ctx) {
 	c.Name = "witnesses"
 	for _, in := range []string{
 		`{"id":"1","type":"all","attributes":{"bytes":123}}`, `{"id":"1","type":"all","attributes":{"bytes":"not base64!"}}`, `{"id":"1","type":"all","attributes":{"nbytes":"%%%"}}`,
-		`[null]`, `{"data":[null]}`, `{"id":"1","type":"nope"}`, `{"id":"1"}`, `{}`, `null`, `[]`, `""`, ``, `{"data":{"id":"1","type":"nope"}}`, `{"data":null,"included":[{"id":"1","type":"nope"}]}`,
+		`[null]`, `{"data":[null]}`, `{"id":"1","type":"nope"}`, `{"id":"1","type":"zz-decoy"}`, `{"data":{"id":"1","type":"zz-decoy"}}`, `{"data":null,"included":[{"id":"1","type":"zz-decoy"}]}`, `{"id":"1"}`, `{}`, `null`, `[]`, `""`, ``, `{"data":{"id":"1","type":"nope"}}`, `{"data":null,"included":[{"id":"1","type":"nope"}]}`,
 		`{"data":{"id":"1","type":"all","relationships":{"one":{"data":[]}}}}`, `{"data":{"id":"1","type":"all","relationships":{"many":{"data":{"id":"1","type":"all"}}}}}`,
 		`{"data":5}`, `{"data":"x"}`, `{"errors":5}`, `{"errors":[5]}`, `{"meta":5}`, `{"included":5}`, `{"data":{"id":5,"type":"all"}}`, `{"data":{"id":"1","type":"all","attributes":5}}`,
 		`{"data":{"id":"1","type":"all","attributes":{"int8":300,"uint8":-1,"time":"x","bool":"true","string":5}}}`,
